@@ -42,7 +42,7 @@ func NewARP(opt int) (*ARP, error) {
 
 func (a *ARP) Len() (n uint16) {
 	n = 8
-	n += uint16(a.HWLength*2 + a.ProtoLength*2)
+	n += uint16(a.HWLength)*2 + uint16(a.ProtoLength)*2
 	return
 }
 
@@ -81,7 +81,7 @@ func (a *ARP) UnmarshalBinary(data []byte) error {
 		return errors.New("The []byte is too short to unmarshal a full ARP message.")
 	}
 
-	a.HWSrc = net.HardwareAddr(make([]byte, 6))
+	a.HWSrc = net.HardwareAddr(make([]byte, a.HWLength))
 	copy(a.HWSrc, data[n:n+int(a.HWLength)])
 	n += int(a.HWLength)
 
@@ -89,7 +89,7 @@ func (a *ARP) UnmarshalBinary(data []byte) error {
 	copy(a.IPSrc, data[n:n+int(a.ProtoLength)])
 	n += int(a.ProtoLength)
 
-	a.HWDst = net.HardwareAddr(make([]byte, 6))
+	a.HWDst = net.HardwareAddr(make([]byte, a.HWLength))
 	copy(a.HWDst, data[n:n+int(a.HWLength)])
 	n += int(a.HWLength)
 
